@@ -165,6 +165,15 @@ where
     #[cfg(feature = "std")]
     fn chunks_vectored<'a>(&'a self, dst: &mut [IoSlice<'a>]) -> usize {
         let mut n = self.a.chunks_vectored(dst);
+        // `a` may list only part of what it holds (the default implementation
+        // lists a single chunk). The slices of `b` may only follow once all of
+        // `a` has been listed, otherwise `dst` is not a prefix of the chain.
+        let listed = dst[..n]
+            .iter()
+            .fold(0usize, |sum, s| sum.saturating_add(s.len()));
+        if listed < self.a.remaining() {
+            return n;
+        }
         n += self.b.chunks_vectored(&mut dst[n..]);
         n
     }
